@@ -287,6 +287,7 @@ class Registry:
             raise Unsupported("no klass declaration for %s" % cname)
         ref = run.alloc(HObj(cname, {}))
         o = run.obj(ref)
+        o.declared = True       # fields come from the klass declaration, not from an executed __init__
         for f, ty in k["fields"].items():
             o.fields[f] = self.make_symbolic(it, ty, "%s.%s" % (name, f), fresh)
         for g, ty in k["ghost"].items():
@@ -610,6 +611,7 @@ def clone_heap(heap):
     for oid, o in heap.items():
         if isinstance(o, HObj):
             out[oid] = HObj(o.cls, dict(o.fields))
+            out[oid].declared = getattr(o, "declared", False)
         elif isinstance(o, HList):
             out[oid] = HList(list(o.items))
         elif isinstance(o, HSeq):
@@ -672,6 +674,7 @@ def import_value(run, v, heap, memo):
             r = run.alloc(HVec(o.arr, o.shape, o.elem))
         elif isinstance(o, HObj):
             r = run.alloc(HObj(o.cls, {}))
+            run.obj(r).declared = getattr(o, "declared", False)
             memo[v.oid] = r
             run.obj(r).fields = {k: import_value(run, x, heap, memo) for k, x in o.fields.items()}
             for (oid, g), gv in list(run.ghost.items()):
